@@ -308,7 +308,12 @@ def pattern_case(case: Any, ctx: Any = None) -> List[Tuple[str, str]]:
         checked += 1
         ok2, m2 = regen.cpu_limited(lambda: cx.fullmatch(sx))
         if ok2 and m2 is None:
-            cause = "metacharacter-from-hex-escape" if re.search(r"\\x[0-9a-fA-F]{2}", pat) else "other"
+            if re.search(r"\\[xuU][0-9a-fA-F]{2}", xp or ""):
+                cause = "python-style-escape-left-in-xsd-pattern"
+            elif re.search(r"\\x[0-9a-fA-F]{2}", pat):
+                cause = "metacharacter-from-hex-escape"
+            else:
+                cause = "other"
             fails.append((f"pattern:string-of-the-language-rejected-by-xsd-pattern:{cause}", f"P={pat!r} X={xp!r} s={sx!r}"))
             break
     if ctx is not None:
